@@ -68,7 +68,7 @@ def message_frames(opcode, payload, cuts=(), mask=b"\x11\x22\x33\x44", compress=
     if compress is not None:
         payload = compress.compress(payload) + compress.flush(zlib.Z_SYNC_FLUSH)
         assert payload.endswith(b"\x00\x00\xff\xff")
-        payload = payload[:-4]
+        payload = payload[:-4] or b"\x00"  # RFC 7692 7.2.3.6: an empty message is a single 0x00 octet
         rsv1 = True
     cuts = sorted(set(c for c in cuts if 0 <= c <= len(payload)))
     pieces, prev = [], 0
